@@ -158,6 +158,33 @@ def run(ck, prog, ctx):
             continue
         n_dec += 1
         eqs = length_equalities(b, pvn)
+        # `cursor.is_exhausted()`: a crate-private predicate whose whole body is `self.<position field> == <input>.len()`, where another method of
+        # the same type advances that field by addition - the call's result is the equality
+        for cbi, ct in b.calls():
+            hb = prog.bodies.get(ct.callee.res or "")
+            if hb is None or hb.kind != "AssocFn" or hb.exported or hb.natural_loops() or ct.dest is None or not ct.dest.is_local() or str(hb.locals[0].get("s", "")) != "bool":
+                continue
+            if any(hb.blocks[x].term.k == "switch" for x in hb.reach):
+                continue
+            for pos_, st_ in hb.stmts():
+                if not (st_.k == "assign" and st_.rv["k"] == "bin" and st_.rv["op"] in ("Eq", "Ne") and st_.rv.get("lty") == "usize"):
+                    continue
+                sides_ = [pvn.of_operand(hb, st_.rv["l"]), pvn.of_operand(hb, st_.rv["r"])]
+                lens_ = [any(a[0] == "call" and re.search(r"::len$", a[1]) for a in sd) for sd in sides_]
+                if sum(lens_) != 1:
+                    continue
+                other = sides_[lens_.index(False)]
+                adt_ = (hb.impl_self or {}).get("adt")
+                flds = {a[2] for a in other if a[0] == "field" and a[1] == adt_}
+                advanced = False
+                for sib in prog.production():
+                    if sib.kind == "AssocFn" and (sib.impl_self or {}).get("adt") == adt_ and sib.id != hb.id:
+                        for _, ss in sib.stmts():
+                            if ss.k == "assign" and ss.rv["k"] == "bin" and ss.rv["op"].startswith("Add") or (ss.k == "assign" and ss.rv["k"] == "use" and any(a[0] == "op" and str(a[1]).startswith("Add") for a in pvn.of_operand(sib, ss.rv["op"]))):
+                                if any(e != "*" and e[0] == "f" and e[1] in flds for e in ss.place.fields()) or (ss.place.is_local() and any(e != "*" and e[0] == "f" and e[1] in flds for _, s2 in sib.stmts() if s2.k == "assign" and s2.rv["k"] == "use" and s2.rv["op"].place is not None and s2.rv["op"].place.local == ss.place.local for e in s2.place.fields())):
+                                    advanced = True
+                if flds and advanced:
+                    eqs.append({"local": ct.dest.local, "pos": (cbi, 0), "kind": "offset==len", "op": st_.rv["op"]})
         edges = {}
         for e in eqs:
             for ed in bool_true_edges(b, e["local"], want=(e["op"] == "Eq")):
